@@ -105,6 +105,24 @@ CLAIMED = {
         note=TRUST + "SimpleFinalizer is excluded by the property's wording. Assumes Value::from_compact_bits/zero/prune return "
              "values of the type they are given (C10).",
         design="3/C12"),
+    "C14": dict(
+        category="proof",
+        engine="simp-facts + rules + clang AST (cside.py)",
+        technique="exhaustive comparison of finite tables: every row of every generated jet table (constants read from MIR) against its sibling tables and the vendored C tables; every extern declaration against clang's prototype of its link name; #[repr(C)] layouts against C records",
+        text="The property quantifies over finite sets that the check enumerates completely on every run: for all 368 Core, 471 Elements "
+             "and 428 Bitcoin jets it compares the encode table with the decode tree read from MIR (decode(encode(j)) = j, every decoder "
+             "leaf is some jet's code, codes unique and prefix-free), Display with FromStr (bijection, parse delegates), and type names "
+             "(well-formed); for all 471 Elements jets the CMR bytes, cost, expanded source/target type and bit code against "
+             "primitiveJetNode.inc / primitiveInitTy.inc / decode*Jets.inc; for all 368 Core jets the types and code of the Elements "
+             "namesake; the jet-to-C-function chain (c_jet_ptr arm, jets_wrapper, extern link name, C WRAP_ wrapper and the C jet it calls) "
+             "for all 839 dispatch rows; the three TypeName interpreters character by character; all 497 extern fns (arity, each parameter, "
+             "result, callback signatures) and 91 extern statics against clang's AST of the 26 compiled C files; 26 #[repr(C)] mirrors against "
+             "the C record layouts. This is a proof by exhaustive evaluation of a decidable finite statement; it found and repaired five "
+             "binding defects (known_findings.json: F-FFI-*).",
+        note=TRUST + "ABI canonicalisation is for x86-64 Linux/glibc (uint_fast16_t/uint_fast32_t/int_fast32_t 64-bit). The generated .inc "
+             "tables are data files in a fixed format and are read with regular expressions (row counts cross-checked with clang's enum "
+             "jetName / TypeNamesForJets). Core CMRs and costs have no C counterpart and are not compared (as the property says).",
+        design="3/C14"),
     "C16": dict(
         technique="call-graph parametricity check + in-place-mutation provenance rule on MIR",
         text="Decides the root-equality sentence by parametricity: cmr(), commit() and satisfy() build the program through the "
